@@ -167,6 +167,7 @@ Definition sn_side (e : env) (fuel : nat) (p : pkg) (n : string) (accs : list ac
       && forallb (fun l => Nat.eqb (length (filter (fun l' => String.eqb (l_name l') (l_name l)) ls)) 1) ls
       && forallb (fun l => match l_hops l with [] => true | _ => is_exported (l_name l) end) ls
       && forallb (fun x => negb (String.eqb (fst x) "")) (embedded_names e fuel 0 fs)
+      && emb_structs e fuel fs
   | None => false
   end.
 
